@@ -221,8 +221,70 @@ func oracle(c Case) *ev.Verdict {
 		if (chkErr == nil) != re.MatchString(p) {
 			return ev.V("type-use:verdict", "schema %s // {type: \"@r\"} with @r = %s: Check()=%v, pattern matches=%v", lit, s, chkErr, re.MatchString(p))
 		}
+		// the same question with the type reached in other ways: through another type only (the root text
+		// never names @r), as an alternative of an or rule, as the item of an array of a referenced type
+		for k, u := range typeUses(string(lit)) {
+			if (k+i+len(s))%2 == 1 && i > 0 {
+				continue // (every way is taken by about half of the probes)
+			}
+			root := jschema.New("@main", u.root)
+			var errs []*sut.ErrInfo
+			var example []byte
+			var exErr error
+			if esc := sut.Trap("type-use", func() {
+				add := func(name string) {
+					if name == "@r" {
+						errs = append(errs, sut.Describe(root.AddType("@r", regex.New("@r", s))))
+					} else if u.mid != "" {
+						errs = append(errs, sut.Describe(root.AddType("@mid", jschema.New("@mid", u.mid))))
+					}
+				}
+				if (i+k)%2 == 0 {
+					add("@r")
+					add("@mid")
+				} else {
+					add("@mid")
+					add("@r")
+				}
+				chkErr = sut.Describe(root.Check())
+				if chkErr == nil {
+					example, exErr = root.Example()
+				}
+			}); esc != nil {
+				return ev.V("panic:type-use:"+u.name+":"+esc.Frame, "using %q as a type (%s) panicked: %s\nroot: %s\n@mid: %s", s, u.name, esc.Value, u.root, u.mid)
+			}
+			for _, e := range errs {
+				if e != nil && e.Code == 1801 && hasHighClassWithoutASCII(pat) {
+					return ev.V("example:error:class-up-to-U+10FFFF-without-printable-ASCII", "AddType of accepted regex schema %q fails: %s", s, e)
+				}
+				if e != nil {
+					return ev.V("type-use:addtype:"+u.name, "AddType fails for the project root %s, @mid = %s, @r = %s: %s", u.root, u.mid, s, e)
+				}
+			}
+			if (chkErr == nil) != re.MatchString(p) {
+				return ev.V("type-use:verdict:"+u.name, "root %s, @mid = %s, @r = %s: Check()=%v, pattern matches=%v", u.root, u.mid, s, chkErr, re.MatchString(p))
+			}
+			if chkErr == nil && (exErr != nil || !json.Valid(example)) {
+				if exErr != nil && strings.Contains(exErr.Error(), "1801") && hasHighClassWithoutASCII(pat) {
+					return ev.V("example:error:class-up-to-U+10FFFF-without-printable-ASCII", "Example() of a schema using the accepted regex schema %q fails: %v", s, exErr)
+				}
+				return ev.V("type-use:example:"+u.name, "root %s, @mid = %s, @r = %s is accepted but Example() = %q, %v", u.root, u.mid, s, example, exErr)
+			}
+		}
 	}
 	return nil
+}
+
+type typeUse struct{ name, root, mid string }
+
+// typeUses: projects in which the string literal lit is described by the regex type @r
+func typeUses(lit string) []typeUse {
+	return []typeUse{
+		{"through-type", "{\n  \"c\": @mid\n}", lit + ` // {type: "@r"}`},
+		{"through-type-item", "[\n  @mid\n]", "{\n  \"k\": [\n    " + lit + " // {type: \"@r\"}\n  ]\n}"},
+		{"or-alternative", lit + ` // {or: ["integer", "@r"]}`, ""},
+		{"through-type-or", "{\n  \"c\": @mid // {optional: true}\n}", lit + ` // {or: ["@r", "boolean"]}`},
+	}
 }
 
 // hasEmptyClass: does the parsed pattern contain a character class without members (regexp/syntax
